@@ -1,6 +1,6 @@
 (* C16 — delayed feedback equals the delayed expression, history included. *)
 From Coq Require Import ZArith QArith List Bool Arith.
-From RT Require Import Xq Interp Expr Transcribe Delay Interp_proofs Delay_proofs.
+From RT Require Import Xq Interp Expr Transcribe Transcribe_proofs Delay Interp_proofs Delay_proofs Delay_iso.
 Import ListNotations.
 Open Scope Q_scope.
 
@@ -51,3 +51,10 @@ Example C16_nonvacuous :
   Forall2 Qeq (delay_rows P [5; 6; 7; 8; 9; 10; 11; 12; 0] 0 d) [31 # 8; 17 # 8; 0; - (5 # 4)].
 Proof. cbn zeta. split; [vm_compute; reflexivity|]. vm_compute. repeat constructor. Qed.
 Print Assumptions C16_nonvacuous.
+
+(* the delayed-feedback rows of member m are built from member m's own parameters, constant inputs and history
+   (and member 0's history, which fixes the scaling of the initial derivatives): no other member's data enter *)
+Theorem C16_rows_use_own_member_data :
+  forall P P' m X d, same_shape P P' -> same_member_data m P P' -> delay_rows P X m d = delay_rows P' X m d.
+Proof. exact delay_rows_isolated. Qed.
+Print Assumptions C16_rows_use_own_member_data.
